@@ -10,7 +10,8 @@
 //	srv   reference client <-> real server (WrapConn): genuine, and with a wrong identity
 //	fresh 8 WrapConn calls overlapping on one factory + 8 sequential ones: pairwise distinct Y',
 //	      session keys, and per-connection random draws as the model's; 8 clients: distinct X'
-//	conc  (thorough) 32 real clients concurrently against one real server factory
+//	conc  16 (quick: 3 batches; search mode: up to 40) / 32 (thorough) genuine client-server pairs of
+//	      one factory handshaking truly in parallel over pipes, payload echo; S oracle only
 //
 // C (correspondence): outcome class per read-loop iteration, bytes consumed and the derived
 // key blocks equal the model's `parseServerHandshake` / `clientFeed`.
@@ -21,6 +22,7 @@ package main
 
 import (
 	"bytes"
+	"runtime"
 	"encoding/json"
 	"fmt"
 	"io"
@@ -28,6 +30,7 @@ import (
 	"strconv"
 	"strings"
 	"sync"
+	"sync/atomic"
 	"time"
 
 	"gitlab.com/yawning/obfs4.git/common/ntor"
@@ -965,16 +968,29 @@ func runFresh(c ccase) (retry bool) {
 
 // ---------------------------------------------------------------- conc: 32 clients, one factory (S oracle only)
 
+// runConc: N genuine client/server pairs of ONE server factory handshake truly in parallel (real
+// goroutines, in-memory pipes, all released by one barrier) and echo payload both ways.  S oracle
+// only: every genuine pair must complete and carry the data, nobody may panic, all X' distinct.
+// A pair that has not finished after the watchdog interval is torn down (both pipe ends closed)
+// and counted as failed.
 func runConc(c ccase) {
+	N := 32
+	if n, err := strconv.Atoi(strings.TrimSuffix(c.Kind, "-clients")); err == nil && n > 0 {
+		N = n
+	}
+	if runtime.GOMAXPROCS(0) < 8 {
+		runtime.GOMAXPROCS(8)
+	}
 	rng := vlib.NewRng(c.CaseSeed)
 	o4h.InstallTape(c.CaseSeed)
 	id := o4h.NewIdentity(rng, 0)
 	sf := id.ServerFactory()
 	cf := o4h.ClientFactory()
-	const N = 32
+	const watchdog = 20 * time.Second
 	var wg sync.WaitGroup
 	errs := make([]string, N)
 	reprs := make([][]byte, N)
+	barrier := make(chan struct{})
 	for i := 0; i < N; i++ {
 		wg.Add(1)
 		payloadUp := vlib.NewRng(c.CaseSeed + uint64(i)).Bytes(2000 + i)
@@ -982,6 +998,9 @@ func runConc(c ccase) {
 		go func(i int) {
 			defer wg.Done()
 			a, b := net.Pipe()
+			var timedOut atomic.Bool
+			wd := time.AfterFunc(watchdog, func() { timedOut.Store(true); a.Close(); b.Close() })
+			defer wd.Stop()
 			var first []byte
 			var fmu sync.Mutex
 			tap := &tapConn{Conn: a, onWrite: func(p []byte) {
@@ -993,6 +1012,13 @@ func runConc(c ccase) {
 			}}
 			srvDone := make(chan string, 1)
 			go func() {
+				defer func() {
+					if p := recover(); p != nil {
+						b.Close()
+						srvDone <- fmt.Sprintf("PANIC in the server: %v", p)
+					}
+				}()
+				<-barrier
 				sc, err := sf.WrapConn(b)
 				if err != nil {
 					srvDone <- "WrapConn: " + err.Error()
@@ -1010,28 +1036,46 @@ func runConc(c ccase) {
 				}
 				srvDone <- ""
 			}()
+			fail := func(msg string) {
+				a.Close() // lets the server side end (its Read fails; closeAfterDelay returns at once)
+				s := <-srvDone
+				if strings.HasPrefix(s, "PANIC") {
+					msg = s + " ; client: " + msg
+				} else if s != "" {
+					msg += " ; server: " + s
+				}
+				if timedOut.Load() {
+					msg += fmt.Sprintf(" (pair torn down after %v)", watchdog)
+				}
+				errs[i] = msg
+			}
+			defer func() {
+				if p := recover(); p != nil {
+					fail(fmt.Sprintf("PANIC in the client: %v", p))
+				}
+			}()
 			args, err := cf.ParseArgs(id.ClientArgs([]string{"cert", "legacy"}[i%2], 0))
 			if err != nil {
-				errs[i] = err.Error()
+				fail(err.Error())
 				return
 			}
+			<-barrier
 			cc, err := cf.Dial("tcp", "x", func(string, string) (net.Conn, error) { return tap, nil }, args)
 			if err != nil {
-				errs[i] = "Dial: " + err.Error()
-				a.Close()
-				<-srvDone
+				fail("Dial: " + err.Error())
 				return
 			}
 			defer cc.Close()
 			if _, err := cc.Write(payloadUp); err != nil {
-				errs[i] = "client write: " + err.Error()
+				fail("client write: " + err.Error())
 				return
 			}
 			got := make([]byte, len(payloadDown))
 			if _, err := io.ReadFull(cc, got); err != nil || !bytes.Equal(got, payloadDown) {
-				errs[i] = fmt.Sprintf("client read: %v equal=%v", err, bytes.Equal(got, payloadDown))
+				fail(fmt.Sprintf("client read: %v equal=%v", err, bytes.Equal(got, payloadDown)))
+				return
 			}
-			if s := <-srvDone; s != "" && errs[i] == "" {
+			if s := <-srvDone; s != "" {
 				errs[i] = s
 			}
 			fmu.Lock()
@@ -1041,12 +1085,17 @@ func runConc(c ccase) {
 			fmu.Unlock()
 		}(i)
 	}
+	time.Sleep(20 * time.Millisecond) // let every goroutine reach the barrier
+	close(barrier)
 	wg.Wait()
 	seen := map[string]int{}
+	var failed, panicked []string
 	for i, e := range errs {
 		r.Case(fmt.Sprintf("%s|%d", c.key(), i), true)
-		if e != "" {
-			violate("concurrent-genuine-handshake-fails", "impl-oracle", fmt.Sprintf("client %d of %d concurrent ones: %s", i, N, e), c)
+		if strings.Contains(e, "PANIC") {
+			panicked = append(panicked, fmt.Sprintf("#%d: %s", i, e))
+		} else if e != "" {
+			failed = append(failed, fmt.Sprintf("#%d: %s", i, e))
 		}
 		if reprs[i] != nil {
 			k := string(reprs[i])
@@ -1056,7 +1105,26 @@ func runConc(c ccase) {
 			seen[k] = i
 		}
 	}
-	r.Count("concurrent_batches", "32")
+	short := func(l []string) string {
+		if len(l) > 3 {
+			l = l[:3]
+		}
+		s := strings.Join(l, " || ")
+		if len(s) > 700 {
+			s = s[:700]
+		}
+		return s
+	}
+	if len(panicked) > 0 {
+		violate("server-panics-under-concurrency", "impl-oracle",
+			fmt.Sprintf("%d of %d genuine client/server pairs of one factory handshaking in parallel ended in a panic: %s", len(panicked), N, short(panicked)), c)
+	}
+	if len(failed) > 0 {
+		violate("genuine-client-fails-under-concurrency", "impl-oracle",
+			fmt.Sprintf("%d of %d genuine client/server pairs of one factory handshaking in parallel failed (each completes when run alone): %s", len(failed), N, short(failed)), c)
+	}
+	r.Count("concurrent_batches", strconv.Itoa(N))
+	r.Count("concurrent_pairs_ok", strconv.Itoa(N-len(failed)-len(panicked)))
 }
 
 type tapConn struct {
@@ -1090,6 +1158,21 @@ func run(c ccase) {
 	}
 }
 
+// concBatches: truly concurrent batches (S oracle only).  quick: 3 x 16 pairs; thorough: + 12 x 32;
+// in search mode up to n, stopping two batches after the first failing one.
+func concBatches(rng *vlib.Rng, n int) {
+	firstBad := -1
+	for i := 0; i < n; i++ {
+		run(ccase{Family: "conc", Kind: "16-clients", CaseSeed: rng.U64(), Format: "both", Chunk: "-"})
+		if r.NumViolations() > 0 && firstBad < 0 {
+			firstBad = i
+		}
+		if firstBad >= 0 && i >= firstBad+2 {
+			break
+		}
+	}
+}
+
 func main() {
 	r = vlib.NewRun("C02")
 	for k, v := range obfs4.VerifConstants() {
@@ -1116,6 +1199,10 @@ func main() {
 	}
 
 	rng := vlib.NewRng(r.Seed)
+	if r.Mode == "search" {
+		// after a broken proof or tie: hunt first for changes that only bite under real parallelism
+		concBatches(rng.Fork(), 40)
+	}
 	formats := []string{"cert", "legacy"}
 	for i, n := 0, r.Scale(5, 60); i < n; i++ {
 		run(ccase{Family: "fn", Kind: "all", CaseSeed: rng.U64(), Format: "-", Chunk: "-"})
@@ -1131,6 +1218,9 @@ func main() {
 	}
 	for i, n := 0, r.Scale(3, 40); i < n; i++ {
 		run(ccase{Family: "fresh", Kind: "8-overlapping+8-sequential", CaseSeed: rng.U64(), Format: "both", Chunk: "whole"})
+	}
+	if r.Mode != "search" {
+		concBatches(rng, 3)
 	}
 	if r.Thorough() {
 		for i := 0; i < 12; i++ {
